@@ -351,7 +351,7 @@ fn pattern(s: &Spec, v: &Var) -> Vec<(D, usize)> {
 }
 
 fn c14_with(triples: bool) -> R {
-    let cat = if rt::thorough() { spec::catalogue(7, true, false, true) } else if triples { spec::catalogue(5, true, false, false) } else { spec::catalogue(6, true, false, true) };
+    let cat = if triples { spec::catalogue(5, true, false, false) } else if rt::thorough() { spec::catalogue(7, true, false, true) } else { spec::catalogue(6, true, false, true) };
     let s = &cat[choice(cat.len())];
     // a digest occurring at several positions is obscured everywhere at once: keep shapes with unique content
     { let e = build(s); let ps = positions(&e); let mut seen = std::collections::HashSet::new(); rt::assume(ps.iter().all(|p| seen.insert(p.d)))?; }
@@ -435,7 +435,7 @@ pub fn prop_c14() -> Prop {
                 bounds: "every shape of <=6 (quick) / <=7 (thorough) elements with unique content + larger shapes x every ordered pair from {original, re-decoded copy, unrelated envelope, same shape with other leaves, every single position (first 6/8) obscured by each of the 3 actions, every pair of disjoint positions obscured with 3 action pairs} x every digest order; the obscuration pattern is computed by the harness from its own choices, not from structural_digest",
                 api: &["is_equivalent_to", "is_identical_to", "PartialEq::eq", "structural_digest", "elide_removing_set_with_action", "try_from_cbor_data"] },
             Scenario { name: "triples", f: c14_triples, thorough_only: false,
-                bounds: "every shape of <=5 (quick) / <=7 (thorough) elements x every ordered triple of the same variant set: transitivity of identity and equivalence",
+                bounds: "every shape of <=5 elements x every ordered triple of the same variant set (first 6 positions quick / 8 thorough): transitivity of identity and equivalence",
                 api: &["is_equivalent_to", "is_identical_to"] },
         ],
         assumptions: COMMON_ASSUMPTIONS.to_vec(),
